@@ -594,6 +594,9 @@ STUBS = ['np.zeros/ones/empty/full/*_like/array/asarray/eye/linspace/arange (flo
          'np.linalg.norm/solve/inv/det (symbolic data)', 'np.maximum/minimum (scalar proxies)']
 
 
+_OVERRIDDEN = [k for k, v in NPProxy.__dict__.items() if callable(v) and not k.startswith('_')]
+
+
 def patch_all(prefix='openmdao.', extra=()):
     """rebind the module-global `np` (and `numpy`) of every loaded module under prefix"""
     n = 0
@@ -603,6 +606,13 @@ def patch_all(prefix='openmdao.', extra=()):
         for attr in ('np', 'numpy'):
             if getattr(m, attr, None) is np:
                 setattr(m, attr, PROXY)
+                n += 1
+        # names imported directly (from numpy import bincount, isscalar, ...)
+        d = getattr(m, '__dict__', {})
+        for attr in _OVERRIDDEN:
+            v = d.get(attr)
+            if v is not None and v is getattr(np, attr, None):
+                setattr(m, attr, getattr(PROXY, attr))
                 n += 1
     return n
 
